@@ -757,8 +757,10 @@ class Interp:
         if isinstance(e, ast.BoolOp):
             vals = []
             isand = isinstance(e.op, ast.And)
+            last = None
             for x in e.values:
                 v = self.eval(x, env, mod)
+                last = v
                 if isinstance(v, BV) and v.concrete() is not None:
                     v = v.concrete()
                 if isinstance(v, (Unknown, BV, ALen)):
@@ -770,7 +772,8 @@ class Interp:
                 if not isand and truth:
                     return v
             if not vals:
-                return True if isand else False
+                # every operand was concrete and none decided the result: Python yields the last operand
+                return last
             if len(vals) == 1:
                 return vals[0]
             txt = (" and " if isand else " or ").join(f"({v.text})" for v in vals)
@@ -844,6 +847,11 @@ class Interp:
                 r = r.concrete()
             if opname in ("is", "is not") and (l is None or r is None) and isinstance(r if l is None else l, (AObj, AList, SymList, BV, EnumMember)):
                 if opname == "is":
+                    return False
+                left = right
+                continue
+            if opname in ("in", "not in") and isinstance(r, tuple) and isinstance(l, (str, int)) and all(isinstance(x, (str, int)) for x in r):
+                if (l in r) != (opname == "in"):
                     return False
                 left = right
                 continue
